@@ -295,13 +295,102 @@ pub fn strategy() -> impl Strategy<Value = Case> {
     (gens::text_mix(), prop_oneof![Just(0usize), Just(7usize), any::<usize>()]).prop_map(|(text, idx)| Case { text, idx })
 }
 
+/// The strict-parser clause: the same kind of texts evaluated by probes built with the
+/// `strict-parser` feature (both assertion profiles), judged against the raw-counting reference
+/// grammar for all six types and against the default-parser probe ("differs only by rejecting texts
+/// whose raw block hash exceeds the capacity; raw / normalising / dual types accept the same texts").
+fn run_strict(ctx: &crate::engine::Ctx, n: usize) -> crate::engine::SubResult {
+    use crate::checks::c14::{judge_strict, root, run_probe};
+    use proptest::strategy::ValueTree;
+    use proptest::test_runner::{Config, RngAlgorithm, TestRng, TestRunner};
+    let t0 = std::time::Instant::now();
+    let name = "strict_parser_vs_grammar";
+    let rule = "parser texts (as in parse_vs_grammar) evaluated by the strict-parser probes (release and release+debug-assertions): accept / reject, decoded content, end index, index-untouched and error origin against the reference grammar with raw counting for all six types; relation to the default parser; non-trivial = texts accepted by the default parser for some type; distinct by text";
+    let mut stats = Stats::default();
+    let mk = |failure: Option<crate::engine::Failure>, stats: Stats, samples: Vec<serde_json::Value>| crate::engine::SubResult {
+        name: name.to_string(),
+        rule: rule.to_string(),
+        stats,
+        samples,
+        exhaustive: false,
+        failure,
+        wall_s: t0.elapsed().as_secs_f64(),
+        extra: Default::default(),
+    };
+    let seed = ctx.worker_seed("c04-strict-corpus", 0);
+    let mut runner = TestRunner::new_with_rng(Config::default(), TestRng::from_seed(RngAlgorithm::ChaCha, &seed));
+    let strat = gens::text_mix();
+    let texts: Vec<Vec<u8>> = (0..n).map(|_| strat.new_tree(&mut runner).expect("strategy").current()).collect();
+    let dir = root().join("target").join("c14");
+    let _ = std::fs::create_dir_all(&dir);
+    let path = dir.join(format!("c04-strict-{}-{}.jsonl", ctx.seed, std::process::id()));
+    let body: String = texts.iter().map(|t| serde_json::to_string(&corpus::Line::Parse { text: t.clone() }).unwrap() + "\n").collect();
+    let harness_fail = |m: String| crate::engine::Failure { subcheck: name.to_string(), message: format!("HARNESS-PANIC: {}", m), case: serde_json::Value::Null, harness_fault: true };
+    if let Err(e) = std::fs::write(&path, body) {
+        return mk(Some(harness_fail(e.to_string())), stats, vec![]);
+    }
+    let (base, s1, s2) = std::thread::scope(|sc| {
+        let a = sc.spawn(|| run_probe("f-default", "release", &path));
+        let b = sc.spawn(|| run_probe("f-strict", "release", &path));
+        let c = sc.spawn(|| run_probe("f-strict", "relda", &path));
+        (a.join().expect("probe"), b.join().expect("probe"), c.join().expect("probe"))
+    });
+    let _ = std::fs::remove_file(&path);
+    let (base, s1, s2) = match (base, s1, s2) {
+        (Ok(a), Ok(b), Ok(c)) => (a, b, c),
+        (a, b, c) => return mk(Some(harness_fail(format!("{:?}", [a.err(), b.err(), c.err()]))), stats, vec![]),
+    };
+    let mut samples = vec![];
+    for (i, t) in texts.iter().enumerate() {
+        for (prof, tr) in [("release", &s1), ("relda", &s2)] {
+            let got = tr.get(i).cloned().unwrap_or_else(|| "MISSING (probe died)".to_string());
+            let d = base.get(i).cloned().unwrap_or_default();
+            let r = if got.contains("PANIC") || got.contains("MISSING") { Err(format!("probe output {}", got)) } else { judge_strict(t, &got, &d) };
+            if let Err(m) = r {
+                return mk(
+                    Some(crate::engine::Failure {
+                        subcheck: name.to_string(),
+                        message: format!("strict-parser/{}: {} [text {:?}]", prof, m, String::from_utf8_lossy(t)),
+                        case: serde_json::json!({"line": {"Parse": {"text": t}}, "config": format!("strict-parser/{}", prof)}),
+                        harness_fault: false,
+                    }),
+                    stats,
+                    samples,
+                );
+            }
+            stats.evaluations += 1;
+        }
+        if base[i].contains("=OK,") {
+            stats.nontrivial(oracle::fingerprint(t));
+            if samples.len() < 3 && i % 11 == 5 {
+                samples.push(serde_json::json!({"text": String::from_utf8_lossy(t), "strict": s1[i]}));
+            }
+        }
+        if s1[i] != base[i] {
+            stats.class("strict_differs_from_default");
+        }
+    }
+    mk(None, stats, samples)
+}
+
 pub fn subchecks(tier: Tier) -> Vec<SubCheck> {
     let cases = tier.pick(1_000_000, 12_000_000);
-    vec![generated(
+    let n_strict = tier.pick(150_000usize, 2_000_000usize);
+    let mut v = Vec::new();
+    // (the probes cover both assertion profiles themselves: not repeated in the relda pass)
+    if !cfg!(debug_assertions) {
+      v.push(SubCheck {
+        name: "strict_parser_vs_grammar",
+        run: Box::new(move |ctx| run_strict(ctx, n_strict)),
+        replay: Box::new(|v| crate::checks::c14::subchecks(Tier::Quick)[0].replay.as_ref()(v)),
+      });
+    }
+    v.push(generated(
         "parse_vs_grammar",
         "texts: grammar-derived around the capacities, mutated, noise; x 6 types x (from_bytes, from_bytes_with_last_index with 3 index presets, str::parse); non-trivial = grammar-valid text with a block hash length within 3 of a capacity or raw > capacity >= collapsed, or a reject whose first defect lies past the block size; distinct by text",
         cases,
         strategy,
         eval,
-    )]
+    ));
+    v
 }
